@@ -225,7 +225,7 @@ theorem invoke_run_plain {i : Nat} {t : Task} (h : pr.tasks[i]? = some t) (e : E
   simp [invoke, h, interrupted, hp.1, checkErr_gset t e s.files hp.2]
 
 theorem invoke_force {i : Nat} {t : Task} (h : pr.tasks[i]? = some t) (e : Env) (s : State) :
-    invoke cfg H pr i .force e s = runBody cfg H pr i t false e s := by
+    invoke cfg H pr i .force e s = runBody cfg H pr i t false e (forceStart H pr t e s) := by
   simp [invoke, h]
 
 theorem isUpToDate_sources {t : Task} (h : t.sources.isEmpty = false) (dry : Bool) (now : Nat) (s : State) :
